@@ -61,7 +61,7 @@ func qRef(sp *spec, comm []int, gamma float64) float64 {
 func checkQ(t *vlib.T, b *built, allGamma bool, rot int) {
 	sp := b.sp
 	n := sp.n
-	if sp.edges() == 0 && sp.self == 0 {
+	if sp.totalWeight() == 0 {
 		// Q divides by the total edge weight; undefined (0/0), don't-care.
 		t.Outcome("no-edges-skipped")
 		return
@@ -106,34 +106,34 @@ func pow2floor(x int) int {
 	return p
 }
 
-func genQ(g *vlib.G) {
+func genQ(g *vlib.G, large bool) {
 	spaces := []graphSpace{
 		{n: 1}, {n: 2}, {n: 3}, {n: 4},
 		{n: 2, weighted: true}, {n: 3, weighted: true}, {n: 4, weighted: true},
-		{n: 5},
 		{n: 2, directed: true}, {n: 3, directed: true},
 		{n: 2, directed: true, weighted: true}, {n: 3, directed: true, weighted: true},
-		{n: 4, directed: true},
-		{n: 5, weighted: true, rotate: true},
-		{n: 4, directed: true, weighted: true, stride: vlib.Pick(g, 2, 1), offset: vlib.Pick(g, 1, 0), rotate: true},
 		// every node carries the self weight 1 resp. 2 (A_ii of the formula)
 		{n: 2, weighted: true, self: 1}, {n: 3, weighted: true, self: 2}, {n: 4, weighted: true, self: 1},
 		{n: 2, directed: true, weighted: true, self: 2}, {n: 3, directed: true, weighted: true, self: 1},
-		{n: 5, weighted: true, self: 2, stride: vlib.Pick(g, 23, 3), offset: 2},
+		// zero-weight edges
+		{n: 2, weighted: true, alpha: alpha012}, {n: 3, weighted: true, alpha: alpha012},
+		{n: 4, weighted: true, alpha: alpha01, rotate: true},
+		{n: 2, directed: true, weighted: true, alpha: alpha012},
+		{n: 3, directed: true, weighted: true, alpha: alpha012, rotate: true},
+		{n: 5, large: true},
+		{n: 4, directed: true, large: true},
+		{n: 5, weighted: true, rotate: true, large: true},
+		{n: 4, directed: true, weighted: true, stride: vlib.Pick(g, 6, 1), offset: vlib.Pick(g, 1, 0), rotate: true, large: true},
+		{n: 5, weighted: true, self: 2, stride: vlib.Pick(g, 23, 3), offset: 2, large: true},
+		{n: 5, weighted: true, zeroOut: true, stride: vlib.Pick(g, 11, 1), offset: 4, rotate: true, large: true},
+		{n: 4, directed: true, weighted: true, zeroOut: true, stride: vlib.Pick(g, 37, 3), offset: 9, large: true},
+		{n: 4, directed: true, weighted: true, alpha: alpha01, stride: vlib.Pick(g, 37, 3), offset: 8, large: true},
 	}
-	for _, s := range spaces {
-		forGraphs(s, s.stride <= 1 && !s.rotate, func(key string, mk func() *built) {
-			allGamma := g.Thorough() || !(s.rotate && s.weighted && s.self == 0)
-			rot := 0
-			for _, c := range []byte(key) {
-				rot += int(c)
-			}
-			g.Case(key, func(t *vlib.T) { checkQ(t, mk(), allGamma, rot) })
-		})
-		if g.Stopped() {
-			return
-		}
-	}
+	eachSpace(g, large, spaces, func(s graphSpace, key string, mk func() *built) {
+		allGamma := g.Thorough() || !(s.rotate && s.large && s.self == 0)
+		rot := keySum(key)
+		g.Case(key, func(t *vlib.T) { checkQ(t, mk(), allGamma, rot) })
+	})
 }
 
 // ---- multiplex ----
@@ -159,7 +159,7 @@ func weightOptions(L int) [][]float64 {
 
 // resolutionOptions are nil (all 1), a global value, per-layer values, [1].
 func resolutionOptions(L int) [][]float64 {
-	return [][]float64{nil, {2}, []float64{0.5, 2, 1}[:L], {1}}
+	return [][]float64{nil, {2}, []float64{0.5, 2, 1}[:L], []float64{2, 0.5, 3}[:L], []float64{1, 3, 0.5}[:L], {1}}
 }
 
 func layerRes(res []float64, l int) float64 {
@@ -217,7 +217,7 @@ func buildMultiplex(s graphSpace, idxs []int, ws []float64, idKind, order int) *
 	var dl []graph.Directed
 	var ul []graph.Undirected
 	for l, idx := range idxs {
-		sp := signed(mkSpec(s.n, s.directed, s.weighted, idx), layerW(ws, l))
+		sp := signed(s.spec(idx), layerW(ws, l))
 		// the containers rotate over the layers
 		b := build(sp, idKind, (order+l)%nOrders, (idx+l)%nContainers)
 		m.sp = append(m.sp, sp)
@@ -281,7 +281,7 @@ func checkQMultiplex(t *vlib.T, s graphSpace, idxs []int, idKind, order int) {
 					return
 				}
 				for l := 0; l < L; l++ {
-					if m.sp[l].edges() == 0 {
+					if m.sp[l].totalWeight() == 0 {
 						continue // 0/0, don't-care
 					}
 					want := qLayerRef(m.sp[l], layerW(ws, l), layerRes(res, l), comm)
@@ -298,7 +298,7 @@ func checkQMultiplex(t *vlib.T, s graphSpace, idxs []int, idKind, order int) {
 		}
 		got := community.QMultiplex(m.g, nil, ws, nil)
 		for l := 0; l < L; l++ {
-			if m.sp[l].edges() == 0 {
+			if m.sp[l].totalWeight() == 0 {
 				continue
 			}
 			if want := qLayerRef(m.sp[l], layerW(ws, l), 1, single); !(math.Abs(got[l]-want) <= 1e-11) {
@@ -313,8 +313,8 @@ func checkQMultiplex(t *vlib.T, s graphSpace, idxs []int, idKind, order int) {
 	empty := 0
 	detail := map[string]any{}
 	for l, idx := range idxs {
-		sp := mkSpec(s.n, s.directed, s.weighted, idx)
-		empty += b2i(sp.edges() == 0)
+		sp := s.spec(idx)
+		empty += b2i(sp.totalWeight() == 0)
 		detail[fmt.Sprintf("layer%d", l)] = sp.String()
 	}
 	t.Outcome(fmt.Sprintf("%s layers=%d emptylayers=%d", s.name(), L, empty))
@@ -331,7 +331,7 @@ func b2i(b bool) int {
 // forLayerTuples enumerates L-tuples of layers of the space with the tuple
 // index running over total^L; stride/offset apply to the tuple index.
 func forLayerTuples(s graphSpace, L, stride, offset int, f func(key string, idxs []int, idKind, order int)) {
-	total := nGraphs(s.n, s.directed, s.weighted)
+	total := s.count()
 	if stride == 0 {
 		stride = 1
 	}
@@ -359,27 +359,37 @@ type tupleSpace struct {
 	s                 graphSpace
 	L, stride, offset int
 	maxDev, maxRuns   int // louvain-multiplex only
+	large             bool
 }
 
-func genQMultiplex(g *vlib.G) {
+func genQMultiplex(g *vlib.G, large bool) {
 	for _, x := range []tupleSpace{
 		{s: graphSpace{n: 2}, L: 2}, {s: graphSpace{n: 3}, L: 2},
 		{s: graphSpace{n: 2, weighted: true}, L: 2},
-		{s: graphSpace{n: 3, weighted: true}, L: 2},
-		{s: graphSpace{n: 4}, L: 2, stride: vlib.Pick(g, 2, 1)},
 		{s: graphSpace{n: 2, directed: true}, L: 2},
 		{s: graphSpace{n: 2, directed: true, weighted: true}, L: 2},
-		{s: graphSpace{n: 3, directed: true}, L: 2, stride: vlib.Pick(g, 3, 1), offset: vlib.Pick(g, 2, 0)},
-		{s: graphSpace{n: 3, directed: true, weighted: true}, L: 2, stride: vlib.Pick(g, 499, 29), offset: 17},
-		{s: graphSpace{n: 4, weighted: true}, L: 2, stride: vlib.Pick(g, 1999, 101), offset: 101},
+		{s: graphSpace{n: 3, directed: true}, L: 2, stride: 7, offset: 3},
+		{s: graphSpace{n: 2, weighted: true, alpha: alpha012}, L: 2},
+		{s: graphSpace{n: 2, directed: true, weighted: true, alpha: alpha012}, L: 2},
+		{s: graphSpace{n: 3, weighted: true, alpha: alpha01}, L: 2, stride: 3, offset: 1},
 		// three layers
-		{s: graphSpace{n: 2}, L: 3}, {s: graphSpace{n: 3}, L: 3},
-		{s: graphSpace{n: 2, weighted: true}, L: 3},
+		{s: graphSpace{n: 2}, L: 3}, {s: graphSpace{n: 2, weighted: true}, L: 3},
 		{s: graphSpace{n: 2, directed: true}, L: 3},
-		{s: graphSpace{n: 3, weighted: true}, L: 3, stride: vlib.Pick(g, 37, 5), offset: 4},
-		{s: graphSpace{n: 3, directed: true}, L: 3, stride: vlib.Pick(g, 499, 61), offset: 9},
-		{s: graphSpace{n: 4}, L: 3, stride: vlib.Pick(g, 997, 101), offset: 33},
+		// second phase
+		{s: graphSpace{n: 3, weighted: true}, L: 2, stride: vlib.Pick(g, 3, 1), large: true},
+		{s: graphSpace{n: 4}, L: 2, stride: vlib.Pick(g, 5, 1), offset: vlib.Pick(g, 1, 0), large: true},
+		{s: graphSpace{n: 3, directed: true}, L: 2, stride: vlib.Pick(g, 3, 1), offset: vlib.Pick(g, 2, 0), large: true},
+		{s: graphSpace{n: 3, directed: true, weighted: true}, L: 2, stride: vlib.Pick(g, 499, 29), offset: 17, large: true},
+		{s: graphSpace{n: 4, weighted: true}, L: 2, stride: vlib.Pick(g, 1999, 101), offset: 101, large: true},
+		{s: graphSpace{n: 3, directed: true, weighted: true, alpha: alpha012}, L: 2, stride: vlib.Pick(g, 9973, 997), offset: 55, large: true},
+		{s: graphSpace{n: 3}, L: 3, large: true},
+		{s: graphSpace{n: 3, weighted: true}, L: 3, stride: vlib.Pick(g, 37, 5), offset: 4, large: true},
+		{s: graphSpace{n: 3, directed: true}, L: 3, stride: vlib.Pick(g, 499, 61), offset: 9, large: true},
+		{s: graphSpace{n: 4}, L: 3, stride: vlib.Pick(g, 997, 101), offset: 33, large: true},
 	} {
+		if x.large != large {
+			continue
+		}
 		x := x
 		forLayerTuples(x.s, x.L, x.stride, x.offset, func(key string, idxs []int, idKind, order int) {
 			g.Case(key, func(t *vlib.T) { checkQMultiplex(t, x.s, idxs, idKind, order) })
@@ -510,7 +520,7 @@ func (in *louvainInput) layerWeight(l int) float64 { return layerW(in.ws, l) }
 func (in *louvainInput) qTotal(comm []int) float64 {
 	var q float64
 	for l, sp := range in.layers {
-		if sp.edges() == 0 || in.layerWeight(l) == 0 {
+		if sp.totalWeight() == 0 || in.layerWeight(l) == 0 {
 			continue
 		}
 		if in.multi {
@@ -686,7 +696,7 @@ func checkLevels(in *louvainInput, ls []level) (msg string, depth int) {
 		// score of the communities on the original graph, from scratch.
 		gotQ := lv.q(lv.structure)
 		for l, sp := range in.layers {
-			if sp.edges() == 0 || in.layerWeight(l) == 0 {
+			if sp.totalWeight() == 0 || in.layerWeight(l) == 0 {
 				continue
 			}
 			var want float64
@@ -760,7 +770,7 @@ func sameIDs(a, b []int64) bool {
 func classifyPanic(p any, in *louvainInput) string {
 	s := fmt.Sprint(p)
 	switch {
-	case !in.multi && in.directed && in.layers[0].edges() == 0:
+	case !in.multi && in.directed && in.layers[0].totalWeight() == 0:
 		// newDirectedLocalMover lacks the documented "zero edge weight sum -> nil"
 		return "louvain-directed-edgeless-panic"
 	case in.multi && in.ws == nil && strings.Contains(s, "index out of range [1] with length 1"):
@@ -974,7 +984,7 @@ func checkLouvain(t *vlib.T, b *built, maxDev, maxRuns int) {
 	t.Detail(map[string]any{"graph": sp.String(), "ids": b.ids})
 }
 
-func genLouvain(g *vlib.G) {
+func genLouvain(g *vlib.G, large bool) {
 	type sp struct {
 		s               graphSpace
 		maxDev, maxRuns int
@@ -982,16 +992,28 @@ func genLouvain(g *vlib.G) {
 	spaces := []sp{
 		{graphSpace{n: 0}, 2, 0}, {graphSpace{n: 1}, 2, 0}, {graphSpace{n: 2}, 2, 0}, {graphSpace{n: 3}, 2, 0}, {graphSpace{n: 4}, 2, 0},
 		{graphSpace{n: 2, weighted: true}, 2, 0}, {graphSpace{n: 3, weighted: true}, 2, 0},
-		{graphSpace{n: 4, weighted: true}, 2, 0},
-		{graphSpace{n: 5, rotate: !g.Thorough()}, 2, 4000},
 		{graphSpace{n: 0, directed: true}, 2, 0}, {graphSpace{n: 1, directed: true}, 2, 0},
 		{graphSpace{n: 2, directed: true}, 2, 0}, {graphSpace{n: 3, directed: true}, 2, 0},
-		{graphSpace{n: 2, directed: true, weighted: true}, 2, 0}, {graphSpace{n: 3, directed: true, weighted: true}, 2, 0},
-		{graphSpace{n: 4, directed: true, stride: vlib.Pick(g, 2, 1), offset: vlib.Pick(g, 1, 0), rotate: true}, 2, 4000},
-		{graphSpace{n: 5, weighted: true, stride: vlib.Pick(g, 149, 7), offset: 8}, 2, 4000},
-		{graphSpace{n: 4, directed: true, weighted: true, stride: vlib.Pick(g, 997, 61), offset: 100}, 2, 4000},
+		{graphSpace{n: 2, directed: true, weighted: true}, 2, 0},
+		{graphSpace{n: 3, directed: true, weighted: true, rotate: true}, 2, 0},
+		// zero-weight edges
+		{graphSpace{n: 2, weighted: true, alpha: alpha012}, 2, 0}, {graphSpace{n: 3, weighted: true, alpha: alpha012}, 2, 0},
+		{graphSpace{n: 2, directed: true, weighted: true, alpha: alpha012}, 2, 0},
+		{graphSpace{n: 3, directed: true, weighted: true, alpha: alpha012, stride: 5, offset: 2}, 2, 0},
+		{graphSpace{n: 4, weighted: true, alpha: alpha01, stride: 3, offset: 1}, 2, 0},
+		// second phase
+		{graphSpace{n: 4, weighted: true, stride: vlib.Pick(g, 2, 1), rotate: !g.Thorough(), large: true}, 2, 0},
+		{graphSpace{n: 5, stride: vlib.Pick(g, 2, 1), offset: vlib.Pick(g, 1, 0), rotate: !g.Thorough(), large: true}, 2, 4000},
+		{graphSpace{n: 4, directed: true, stride: vlib.Pick(g, 3, 1), offset: vlib.Pick(g, 1, 0), rotate: true, large: true}, 2, 4000},
+		{graphSpace{n: 5, weighted: true, stride: vlib.Pick(g, 199, 7), offset: 8, large: true}, 2, 4000},
+		{graphSpace{n: 4, directed: true, weighted: true, stride: vlib.Pick(g, 997, 61), offset: 100, large: true}, 2, 4000},
+		{graphSpace{n: 5, weighted: true, zeroOut: true, stride: vlib.Pick(g, 499, 29), offset: 14, large: true}, 2, 4000},
+		{graphSpace{n: 4, directed: true, weighted: true, zeroOut: true, stride: vlib.Pick(g, 1999, 211), offset: 45, large: true}, 2, 4000},
 	}
 	for _, x := range spaces {
+		if x.s.large != large {
+			continue
+		}
 		x := x
 		forGraphs(x.s, x.s.stride <= 1 && !x.s.rotate, func(key string, mk func() *built) {
 			g.Case(key, func(t *vlib.T) { checkLouvain(t, mk(), x.maxDev, x.maxRuns) })
@@ -1004,7 +1026,7 @@ func genLouvain(g *vlib.G) {
 
 // ---- ModularizeMultiplex ----
 
-func checkLouvainMultiplex(t *vlib.T, s graphSpace, idxs []int, idKind, order, wi int, maxDev, maxRuns int) {
+func checkLouvainMultiplex(t *vlib.T, s graphSpace, idxs []int, idKind, order, wi int, maxDev, maxRuns int, large bool) {
 	L := len(idxs)
 	ws := weightOptions(L)[wi]
 	m := buildMultiplex(s, idxs, ws, idKind, order)
@@ -1013,13 +1035,15 @@ func checkLouvainMultiplex(t *vlib.T, s graphSpace, idxs []int, idKind, order, w
 	combos := []struct {
 		res []float64
 		all bool
-	}{{nil, false}, {[]float64{2}, true}, {[]float64{0.5, 2, 1}[:L], false}, {[]float64{1, 0.5, 2}[:L], true}}
+	}{{nil, false}, {[]float64{0.5, 2, 1}[:L], true}, {[]float64{2}, true}, {[]float64{2, 0.5, 3}[:L], false},
+		{[]float64{1, 3, 0.5}[:L], false}, {[]float64{1}, true}}
 	sum := wi
 	for _, i := range idxs {
 		sum += i
 	}
 	for ci, c := range combos {
-		if (sum+ci)%2 == 1 {
+		// core spaces and thorough: three of the six combinations; large spaces in quick: two
+		if large && (sum+ci)%3 != 0 || !large && (sum+ci)%2 == 1 {
 			continue
 		}
 		c := c
@@ -1054,25 +1078,33 @@ func checkLouvainMultiplex(t *vlib.T, s graphSpace, idxs []int, idKind, order, w
 	t.Detail(map[string]any{"layers": m.String(), "weights": ws, "ids": m.ids})
 }
 
-func genLouvainMultiplex(g *vlib.G) {
+func genLouvainMultiplex(g *vlib.G, large bool) {
 	for _, x := range []tupleSpace{
 		{s: graphSpace{n: 2}, L: 2, maxDev: 2},
 		{s: graphSpace{n: 3}, L: 2, maxDev: 2},
-		{s: graphSpace{n: 3, weighted: true}, L: 2, stride: vlib.Pick(g, 3, 1), offset: vlib.Pick(g, 1, 0), maxDev: 2},
-		{s: graphSpace{n: 4}, L: 2, stride: vlib.Pick(g, 3, 1), offset: vlib.Pick(g, 2, 0), maxDev: 2, maxRuns: 3000},
 		{s: graphSpace{n: 2, directed: true}, L: 2, maxDev: 2},
 		{s: graphSpace{n: 2, directed: true, weighted: true}, L: 2, maxDev: 2},
-		{s: graphSpace{n: 3, directed: true}, L: 2, stride: vlib.Pick(g, 2, 1), offset: vlib.Pick(g, 1, 0), maxDev: 2, maxRuns: 3000},
-		{s: graphSpace{n: 3, directed: true, weighted: true}, L: 2, stride: vlib.Pick(g, 1009, 211), offset: 31, maxDev: vlib.Pick(g, 1, 2), maxRuns: 3000},
-		{s: graphSpace{n: 4, weighted: true}, L: 2, stride: vlib.Pick(g, 3989, 499), offset: 77, maxDev: vlib.Pick(g, 1, 2), maxRuns: 3000},
-		// three layers
+		{s: graphSpace{n: 3, directed: true}, L: 2, stride: 8, offset: 3, maxDev: 2, maxRuns: 3000},
+		{s: graphSpace{n: 2, weighted: true, alpha: alpha012}, L: 2, maxDev: 2},
+		{s: graphSpace{n: 2, directed: true, weighted: true, alpha: alpha012}, L: 2, stride: 2, maxDev: 2},
+		{s: graphSpace{n: 3, weighted: true, alpha: alpha01}, L: 2, stride: 5, offset: 2, maxDev: 2},
 		{s: graphSpace{n: 2}, L: 3, maxDev: 2},
-		{s: graphSpace{n: 3}, L: 3, stride: vlib.Pick(g, 2, 1), maxDev: 2},
 		{s: graphSpace{n: 2, directed: true}, L: 3, maxDev: 2},
-		{s: graphSpace{n: 3, weighted: true}, L: 3, stride: vlib.Pick(g, 199, 23), offset: 5, maxDev: 2},
-		{s: graphSpace{n: 3, directed: true}, L: 3, stride: vlib.Pick(g, 1999, 211), offset: 13, maxDev: 2, maxRuns: 3000},
-		{s: graphSpace{n: 4}, L: 3, stride: vlib.Pick(g, 1999, 211), offset: 21, maxDev: 2, maxRuns: 3000},
+		// second phase
+		{s: graphSpace{n: 3, weighted: true}, L: 2, stride: vlib.Pick(g, 7, 1), offset: vlib.Pick(g, 1, 0), maxDev: 2, large: true},
+		{s: graphSpace{n: 4}, L: 2, stride: vlib.Pick(g, 7, 1), offset: vlib.Pick(g, 2, 0), maxDev: 2, maxRuns: 3000, large: true},
+		{s: graphSpace{n: 3, directed: true}, L: 2, stride: vlib.Pick(g, 4, 1), offset: vlib.Pick(g, 1, 0), maxDev: 2, maxRuns: 3000, large: true},
+		{s: graphSpace{n: 3, directed: true, weighted: true}, L: 2, stride: vlib.Pick(g, 1009, 211), offset: 31, maxDev: 2, maxRuns: 3000, large: true},
+		{s: graphSpace{n: 4, weighted: true}, L: 2, stride: vlib.Pick(g, 3989, 499), offset: 77, maxDev: 2, maxRuns: 3000, large: true},
+		{s: graphSpace{n: 3, directed: true, weighted: true, alpha: alpha012}, L: 2, stride: vlib.Pick(g, 49999, 4999), offset: 123, maxDev: 2, maxRuns: 3000, large: true},
+		{s: graphSpace{n: 3}, L: 3, stride: vlib.Pick(g, 4, 1), offset: vlib.Pick(g, 1, 0), maxDev: 2, large: true},
+		{s: graphSpace{n: 3, weighted: true}, L: 3, stride: vlib.Pick(g, 199, 23), offset: 5, maxDev: 2, large: true},
+		{s: graphSpace{n: 3, directed: true}, L: 3, stride: vlib.Pick(g, 1999, 211), offset: 13, maxDev: 2, maxRuns: 3000, large: true},
+		{s: graphSpace{n: 4}, L: 3, stride: vlib.Pick(g, 1999, 211), offset: 21, maxDev: 2, maxRuns: 3000, large: true},
 	} {
+		if x.large != large {
+			continue
+		}
 		x := x
 		nw := len(weightOptions(x.L))
 		forLayerTuples(x.s, x.L, x.stride, x.offset, func(key string, idxs []int, idKind, order int) {
@@ -1088,12 +1120,78 @@ func genLouvainMultiplex(g *vlib.G) {
 					continue
 				}
 				g.Case(fmt.Sprintf("%s w%d", key, wi), func(t *vlib.T) {
-					checkLouvainMultiplex(t, x.s, idxs, idKind, order, wi, x.maxDev, x.maxRuns)
+					checkLouvainMultiplex(t, x.s, idxs, idKind, order, wi, x.maxDev, x.maxRuns, x.large && !g.Thorough())
 				})
 			}
 		})
 		if g.Stopped() {
 			return
+		}
+	}
+}
+
+// ---- documented panics on negative / sign-mismatched weights ----
+
+// genNegativeWeight: "Q will panic if g has any edge with negative edge
+// weight", likewise Modularize; QMultiplex/ModularizeMultiplex panic when an
+// edge weight does not sign-match the layer weight.
+func genNegativeWeight(g *vlib.G) {
+	for _, directed := range []bool{false, true} {
+		s := graphSpace{n: 3, directed: directed, weighted: true}
+		for idx := 1; idx < s.count(); idx++ {
+			directed, idx := directed, idx
+			g.Case(fmt.Sprintf("%s#%d", s.name(), idx), func(t *vlib.T) {
+				sp := s.spec(idx)
+				// the first edge becomes negative
+				done := false
+				for i := 0; i < 3 && !done; i++ {
+					for j := 0; j < 3 && !done; j++ {
+						if sp.has(i, j) {
+							sp.w[i][j] = -sp.w[i][j]
+							if !directed {
+								sp.w[j][i] = sp.w[i][j]
+							}
+							done = true
+						}
+					}
+				}
+				b := build(sp, idx%3, idx%nOrders, (idx/3)%nContainers)
+				pos := build(s.spec(idx), idx%3, idx%nOrders, contSimple)
+				all := [][]graph.Node{b.nodes()}
+				expect := func(what, msg string, f func()) {
+					defer func() {
+						r := recover()
+						if r == nil {
+							t.Failf("%s on %s did not panic (documented)", what, sp)
+						} else if fmt.Sprint(r) != msg {
+							t.Failf("%s on %s panicked with %v, want %q", what, sp, r, msg)
+						}
+					}()
+					f()
+				}
+				const neg, posMsg = "community: unexpected negative edge weight", "community: unexpected positive edge weight"
+				expect("Q", neg, func() { community.Q(b.g, all, 1) })
+				expect("Q(nil)", neg, func() { community.Q(b.g, nil, 1) })
+				expect("Modularize", neg, func() { community.Modularize(b.g, 1, rand.NewPCG(1, 2)) })
+				var mNeg, mPos community.Multiplex
+				if directed {
+					mNeg, _ = community.NewDirectedLayers(pos.g.(graph.Directed), b.g.(graph.Directed))
+					mPos, _ = community.NewDirectedLayers(pos.g.(graph.Directed), pos.g.(graph.Directed))
+				} else {
+					mNeg, _ = community.NewUndirectedLayers(pos.g.(graph.Undirected), b.g.(graph.Undirected))
+					mPos, _ = community.NewUndirectedLayers(pos.g.(graph.Undirected), pos.g.(graph.Undirected))
+				}
+				expect("QMultiplex(weights 1,1)", neg, func() { community.QMultiplex(mNeg, all, []float64{1, 1}, nil) })
+				expect("QMultiplex(weights 1,-1)", posMsg, func() { community.QMultiplex(mPos, all, []float64{1, -1}, nil) })
+				expect("ModularizeMultiplex(weights 1,1)", neg, func() {
+					community.ModularizeMultiplex(mNeg, []float64{1, 1}, nil, false, rand.NewPCG(1, 2))
+				})
+				expect("ModularizeMultiplex(weights 1,-1)", posMsg, func() {
+					community.ModularizeMultiplex(mPos, []float64{1, -1}, nil, false, rand.NewPCG(1, 2))
+				})
+				t.Nontrivial()
+				t.Outcome(fmt.Sprintf("directed=%v panics", directed))
+			})
 		}
 	}
 }
